@@ -510,15 +510,27 @@ func ruleVariadicFresh(c *Ctx, rule string, vf *vmFacts) {
 		_ = ci
 	}
 	// the prologue helper that takes the args slice: static callee of Run with a []Object parameter
-	eachInstr(vf.Run, func(ins ssa.Instruction) {
-		if ci, ok := ins.(ssa.CallInstruction); ok {
-			if f := ci.Common().StaticCallee(); f != nil && len(f.Params) == 2 && funcPkgPath(f) == modPath {
-				if s, ok := f.Params[1].Type().Underlying().(*types.Slice); ok && isNamed(s.Elem(), modPath, "Object") {
-					initLocals = f
+	for _, f := range staticReach([]*ssa.Function{vf.Run}, func(f *ssa.Function) bool {
+		return funcPkgPath(f) == modPath && len(f.Blocks) > 0 && f != vf.run && f != vf.loop && !vf.reach[f]
+	}) {
+		if f == vf.Run || len(f.Params) != 2 {
+			continue
+		}
+		if s, ok := f.Params[1].Type().Underlying().(*types.Slice); ok && isNamed(s.Elem(), modPath, "Object") {
+			// the helper that copies the arguments into the locals
+			storesArray := false
+			eachInstr(f, func(ins ssa.Instruction) {
+				if st, ok := ins.(*ssa.Store); ok {
+					if mi, ok := st.Val.(*ssa.MakeInterface); ok && isNamed(mi.X.Type(), modPath, "Array") {
+						storesArray = true
+					}
 				}
+			})
+			if storesArray {
+				initLocals = f
 			}
 		}
-	})
+	}
 	if !c.Anchor(rule, "the prologue helper binding arguments to parameters", initLocals != nil) {
 		return
 	}
@@ -833,10 +845,17 @@ func ruleOperandDecode(c *Ctx, rule string, vf *vmFacts, onlyArm string) {
 		shift int64
 	}
 	n := 0
-	for _, fn := range vf.reachFns {
-		if funcPkgPath(fn) != modPath {
+	scope := append([]*ssa.Function{}, vf.reachFns...)
+	if ro := l.Func(modPath, "ReadOperands"); ro != nil {
+		scope = append(scope, ro)
+	}
+	seenFn := map[*ssa.Function]bool{}
+	perFn := map[*ssa.Function]int{}
+	for _, fn := range scope {
+		if funcPkgPath(fn) != modPath || seenFn[fn] {
 			continue
 		}
+		seenFn[fn] = true
 		// OR-trees: roots are BinOp OR not used as operand of another OR
 		isOr := func(v ssa.Value) (*ssa.BinOp, bool) {
 			bo, ok := v.(*ssa.BinOp)
@@ -887,18 +906,25 @@ func ruleOperandDecode(c *Ctx, rule string, vf *vmFacts, onlyArm string) {
 					okTree = false
 					return
 				}
-				// base must be vm.curInsts
-				bu, ok := ia.X.(*ssa.UnOp)
-				if !ok {
+				// base must be a byte slice: vm.curInsts or a []byte parameter (ReadOperands)
+				if sl, ok := ia.X.Type().Underlying().(*types.Slice); !ok || !types.Identical(sl.Elem().Underlying(), types.Typ[types.Uint8]) {
 					okTree = false
 					return
 				}
-				fa, ok := vf.isVMFieldAddr(bu.X)
-				if !ok || fa.Field != fCur {
+				if bu, ok := ia.X.(*ssa.UnOp); ok {
+					if fa, ok := vf.isVMFieldAddr(bu.X); !ok || fa.Field != fCur {
+						okTree = false
+						return
+					}
+				} else if _, isParam := ia.X.(*ssa.Parameter); !isParam {
 					okTree = false
 					return
 				}
-				// index = ip + k
+				if !types.Identical(cv.X.Type().Underlying(), types.Typ[types.Uint8]) {
+					okTree = false
+					return
+				}
+				// index = x + k
 				off := int64(0)
 				if ab, ok := ia.Index.(*ssa.BinOp); ok && ab.Op == token.ADD {
 					if k, ok := constInt64(ab.Y); ok {
@@ -915,6 +941,7 @@ func ruleOperandDecode(c *Ctx, rule string, vf *vmFacts, onlyArm string) {
 				return
 			}
 			n++
+			perFn[fn]++
 			sort.Slice(leaves, func(i, j int) bool { return leaves[i].shift < leaves[j].shift })
 			good := len(leaves) == 2 || len(leaves) == 4
 			for i, lf := range leaves {
@@ -931,6 +958,10 @@ func ruleOperandDecode(c *Ctx, rule string, vf *vmFacts, onlyArm string) {
 	}
 	if n == 0 {
 		c.Und(rule, "operand decoding", "-", "no multi-byte operand decode found in the VM")
+	}
+	if ro := l.Func(modPath, "ReadOperands"); ro != nil {
+		c.Check(rule, "ReadOperands assembles 2- and 4-byte operands from unsigned bytes", l.Pos(ro.Pos()), perFn[ro] >= 2, fmt.Sprintf("%d big-endian byte assemblies", perFn[ro]),
+			"ReadOperands does not assemble its multi-byte operands from unsigned bytes in the big-endian order MakeInstruction writes (e.g. a signed 16-bit read turns jump targets >= 32768 negative)")
 	}
 }
 
